@@ -123,7 +123,7 @@ CHECKS["C09"] = {
     "assumptions": ["time read only through nowFunc"],
     "units": [
         {"name": "ratelimiter", "pkg": "pkg/util/ratelimiter", "test": "TestVerifC09"},
-        {"name": "rlfilter", "pkg": "pkg/filters/ratelimiter", "test": "TestVerifC09filter", "workers": 4},
+        {"name": "rlfilter", "pkg": "pkg/filters/ratelimiter", "test": "TestVerifC09filter", "workers": 8},
     ],
 }
 
